@@ -64,7 +64,7 @@ def pool(rng, kind, hostile=0.25, tags=None):
                 if tags is not None: tags.add("int_ext")
         return p
     if kind == "uint64":
-        return [0, 1, 2, 5, 2**63, 2**64 - 1]
+        return [0, 1, 2, 5, 2**53, 2**53 + 1, 2**63, 2**64 - 1]
     if kind in ("float", "float32"):
         p = list(FLOAT_SMALL)
         if kind == "float" and h:
